@@ -294,7 +294,8 @@ def main(argv=None):
                             failing=[dict(id=f['id'], status=f['status']) for f, _, _ in violations]),
               assumptions=assumptions, wall_s=round(wall, 2), violations=len(violations))
     # evidence is only recorded for runs against the repository itself; scratch trees (seeded changes) write elsewhere
-    evdir = os.path.join(ROOT, 'evidence') if os.path.realpath(repo) == '/repo' else os.path.join(ROOT, '.tmp', 'evidence')
+    evdir = os.path.join(ROOT, 'evidence') if (os.path.realpath(repo) == '/repo' and not os.environ.get('VERIF_SCRATCH_EVIDENCE')) \
+        else os.path.join(ROOT, '.tmp', 'evidence')
     os.makedirs(evdir, exist_ok=True)
     json.dump(ev, open(os.path.join(evdir, pid + '.json'), 'w'), indent=1, default=str)
     print('%s: %d obligations, %d discharged, %d bounded checks, %d ground, %.1fs' % (pid, total, discharged, len(bounded), len(ground), wall))
